@@ -8,7 +8,7 @@ use crate::report::{par_run, Report};
 use crate::rng::Rng;
 use serde_json::json;
 
-pub const RULE: &str = "All 22 indicators x periods {1,2,7,64,512} (+ sampled 1..=512) x stream shapes {strictly increasing, strictly decreasing, alternating, flat, random walk, uniform random, one NaN then non-increasing, +-inf then flat} x scalar/bar feed: after a warm-up of n+2 inputs the thread-local live-heap counter of the harness's counting GlobalAlloc is read, N further inputs (10^5 quick, 10^6 thorough) generated in place (no harness allocation in between) are fed, and it is read again: growth must be <= 256 + 64*sum(periods) bytes (allocation count in steady state reported). bincode::serialized_size is sampled at every step of the first 3n+10 inputs and at 64 checkpoints of the long run: always <= the same bound (constancy after the first input reported). Non-trivial: every run (stream far longer than the window); distinct by construction (indicator, period, shape, feed).";
+pub const RULE: &str = "All 22 indicators x periods {1,2,7,64,512} (+ sampled 1..=512) x stream shapes {strictly increasing, strictly decreasing, alternating, flat, random walk, uniform random, one NaN then non-increasing, +-inf then flat, finite values of magnitude 1e-300..1e300} x scalar/bar feed: after a warm-up of n+2 inputs the thread-local live-heap counter of the harness's counting GlobalAlloc is read, N further inputs (10^5 quick, 10^6 thorough) generated in place (no harness allocation in between) are fed, and it is read again: growth must be <= 256 + 64*sum(periods) bytes (allocation count in steady state reported). bincode::serialized_size is sampled at every step of the first 3n+10 inputs and at 64 checkpoints of the long run: always <= the same bound (constancy after the first input reported). A second phase repeats, on one instance per (indicator, period in {1,7,64,65,200,512}), R cycles of {feed n+5 inputs, reset} / {clone, drop} / {serialize, deserialize, swap}: live heap after the cycles must be within the same bound of live heap after the first cycle (a per-reset, per-clone or per-restore leak grows linearly). Non-trivial: every run (stream far longer than the window); distinct by construction (indicator, period, shape, feed).";
 
 #[derive(Clone, Copy, Debug, PartialEq)]
 pub enum Shape {
@@ -22,8 +22,10 @@ pub enum Shape {
     NanThenDecreasing,
     /// one +inf and one -inf among the first inputs, then flat
     InfThenFlat,
+    /// finite values of any magnitude 1e-300..1e300 and sign (formats whose size depends on the value)
+    WideMagnitude,
 }
-pub const SHAPES: [Shape; 8] = [Shape::Increasing, Shape::Decreasing, Shape::Alternating, Shape::Flat, Shape::Walk, Shape::Uniform, Shape::NanThenDecreasing, Shape::InfThenFlat];
+pub const SHAPES: [Shape; 9] = [Shape::Increasing, Shape::Decreasing, Shape::Alternating, Shape::Flat, Shape::Walk, Shape::Uniform, Shape::NanThenDecreasing, Shape::InfThenFlat, Shape::WideMagnitude];
 
 pub struct ShapeGen {
     shape: Shape,
@@ -56,6 +58,17 @@ impl ShapeGen {
                     1e9 - (self.i - 1) as f64 * 0.25 // repeats the previous value: non-increasing
                 } else {
                     1e9 - self.i as f64 * 0.25
+                }
+            }
+            Shape::WideMagnitude => {
+                // deterministic, no allocation: magnitude cycles through 1e-300..1e300, sign alternates
+                let e = ((self.i * 37) % 601) as i32 - 300;
+                let m = 1.0 + ((self.i * 7919) % 1000) as f64 / 1000.0;
+                let v = m * 10f64.powi(e);
+                if self.i % 3 == 0 {
+                    -v
+                } else {
+                    v
                 }
             }
             Shape::InfThenFlat => match self.i {
@@ -171,6 +184,56 @@ pub fn run_one(rep: &mut Report, p: &Params, shape: Shape, bars: bool, steps: us
     }
 }
 
+/// repeated reset / clone-drop / serde-swap cycles on one instance: heap must not grow per cycle
+pub fn run_cycles(rep: &mut Report, p: &Params, bars: bool, cycles: usize, seed: u64) {
+    let mut g = ShapeGen::new(Shape::Walk, seed);
+    let mut inst = Inst::new(p);
+    let n = p.max_period();
+    let b = bound(p);
+    let one_cycle = |inst: &mut Inst, g: &mut ShapeGen, k: usize| -> bool {
+        for _ in 0..(n + 5) {
+            let x = g.next(bars);
+            if inst.feed(&x).is_err() {
+                return false;
+            }
+        }
+        match k % 3 {
+            0 => inst.reset().is_ok(),
+            1 => match inst.try_clone() {
+                Ok(c) => {
+                    // keep the clone, drop the original
+                    *inst = c;
+                    true
+                }
+                Err(_) => false,
+            },
+            _ => inst.serde_swap().is_ok(),
+        }
+    };
+    // first cycles of each kind establish the baseline (allocator slack, lazily created buffers)
+    for k in 0..3 {
+        if !one_cycle(&mut inst, &mut g, k) {
+            return;
+        }
+    }
+    let live0 = live_bytes();
+    for k in 0..cycles {
+        if !one_cycle(&mut inst, &mut g, k) {
+            return;
+        }
+    }
+    let growth = live_bytes() - live0;
+    rep.evaluations += 1;
+    rep.ratio(&format!("c18.cycle_growth.{}", p.kind.name()), growth.max(0) as f64 / b as f64);
+    if growth > b as i64 {
+        fail(rep, p, "heap_growth_per_cycle", format!("{} (bars={}): live heap grew by {} bytes over {} reset/clone/serde cycles (bound {})", p.label(), bars, growth, cycles, b),
+             json!({"params": p.to_json(), "cycles": cycles, "bars": bars, "seed": seed.to_string()}));
+        return;
+    }
+    rep.count("cycles.runs");
+    rep.distinct_by_construction += 1;
+}
+
 pub fn run(ctx: &Ctx) -> Report {
     if !installed() {
         let mut r = Report::new();
@@ -218,9 +281,34 @@ pub fn run(ctx: &Ctx) -> Report {
         run_one(rep, &p, *shape, *bars, st, seed ^ idx.wrapping_mul(0x9E3779B97F4A7C15));
         rep.count(&format!("shape.{:?}", shape));
     });
+    // cycles phase
+    let mut cjobs = Vec::new();
+    for kind in ALL_KINDS {
+        let periods: Vec<usize> = if kind.n_periods() == 0 { vec![1] } else { vec![1, 7, 64, 65, 200, 512] };
+        for n in periods {
+            for bars in [false, true] {
+                if !bars && !kind.has_scalar() {
+                    continue;
+                }
+                cjobs.push((kind, n, bars));
+            }
+        }
+    }
+    let cycles = ctx.pick(300usize, 3000usize);
+    rep.merge(par_run(cjobs, ctx.threads, move |(kind, n, bars), rep| {
+        let mut p = Params::new1(*kind, *n);
+        match kind {
+            Kind::Macd | Kind::Ppo => p.p = [*n, *n + 3, (*n / 2).max(1)],
+            Kind::Slow => p.p = [*n, 3, 0],
+            Kind::Bb | Kind::Kc | Kind::Ce => p.k = 2.0,
+            _ => {}
+        }
+        let cy = if *n >= 200 { cycles / 4 } else { cycles };
+        run_cycles(rep, &p, *bars, cy, seed ^ (*n as u64 * 31 + *kind as u64));
+    }));
     rep.notes.push(format!("inputs per long run: {}", steps));
     if ctx.only.is_none() {
-        for key in ["runs", "shape.Increasing", "shape.Decreasing", "shape.Alternating", "shape.Flat", "shape.Walk", "shape.Uniform", "shape.NanThenDecreasing", "shape.InfThenFlat"] {
+        for key in ["runs", "shape.Increasing", "shape.Decreasing", "shape.Alternating", "shape.Flat", "shape.Walk", "shape.Uniform", "shape.NanThenDecreasing", "shape.InfThenFlat", "shape.WideMagnitude", "cycles.runs"] {
             if rep.counters.get(key).copied().unwrap_or(0) == 0 {
                 rep.inconclusive.push(format!("coverage floor missed: {} = 0", key));
             }
